@@ -57,10 +57,16 @@ func (p *Program) VerifyFunc(key string) (u *Unit, err error) {
 		v := u.goVal(u.fresh("fv_"+fv.Name(), u.sorts.sortOf(t)), t)
 		u.typeFacts(st, v.T, t)
 		fr.vals[fv] = v
-		if nparams+i < len(fc.Params) {
-			fr.cvars[fc.Params[nparams+i]] = v
+		cv := v
+		if pt, ok := t.Underlying().(*types.Pointer); ok {
+			// a captured variable: contracts name the variable, not its cell
+			u.assume("(not (= " + v.T + " null))")
+			cv.Lazy = pt.Elem()
 		}
-		fr.cvars[fv.Name()] = v
+		if nparams+i < len(fc.Params) {
+			fr.cvars[fc.Params[nparams+i]] = cv
+		}
+		fr.cvars[fv.Name()] = cv
 	}
 	fr.entry = st.clone()
 	env := &Env{u: u, vars: fr.cvars, st: st, old: fr.entry, pkg: u.curPkg}
@@ -158,7 +164,16 @@ func (p *Program) VerifyLemma(ax *Axiom) (*Unit, error) {
 	for _, f := range axiomFuncs(ax.Body, p.CS) {
 		u.declareSpec(p.CS.Specs[f])
 	}
-	t, err := u.axiomTerm(ax)
+	// the lemma's universally quantified variables become fresh constants (skolemisation of the negated goal)
+	env := &Env{u: u, vars: map[string]Val{}, st: &State{guard: "true", comp: map[string]Term{}}, pkg: u.curPkg}
+	for _, v := range ax.Vars {
+		c := u.fresh("l_"+v.Name, v.Sort)
+		env.vars[v.Name] = specVal(c, v.Sort)
+		if v.Sort == SStr {
+			u.strLen(c, true)
+		}
+	}
+	t, err := env.EvalBool(ax.Body)
 	if err != nil {
 		return u, err
 	}
